@@ -319,6 +319,15 @@ func c19Run(c *fw.Case, env *fw.Env) *fw.Obs {
 	if a.err == nil && b.err == nil && len(o.Viols) == 0 {
 		if len(a.rows) != len(b.rows) {
 			o.Violate("outputs-differ/Sorter/"+class, "SortedBlocks gave %d rows, SortedRows %d", len(a.rows), len(b.rows))
+		} else {
+			// "the two outputs contain the same rows": two sorters fed identically must also agree on
+			// which of several rows with the same key they keep
+			for i := range a.rows {
+				if !strEq(a.rows[i], b.rows[i]) {
+					o.Violate("outputs-differ/Sorter/"+class, "row %d: SortedBlocks kept %q, SortedRows kept %q (same key, fed identically; chunks=%s)", i, trunc(a.rows[i]), trunc(b.rows[i]), p.Chunks)
+					break
+				}
+			}
 		}
 	}
 	o.Ev("rows_in", int64(len(t.Rows)))
